@@ -396,6 +396,24 @@ Section Headline.
         rewrite <- EX, dl_app, dl_map_deliver. cbn. now rewrite app_nil_r.
   Qed.
 
+  (* Never a mixture: all deliveries of a record, anywhere in the trace, carry the
+     appender-table tag of the one snapshot it loaded, and use its route's indices. *)
+  Lemma single_tag tid k s pre post d :
+    trace st = pre ++ ELoad (tid, k) s :: post ->
+    In d (deliveries (tid, k) (trace st)) ->
+    fst d = fst s /\ exists tg L, nth_error (nth tid progs []) k = Some (OLog tg L) /\ In d (route s tg L).
+  Proof.
+    intros Htr Hin. destruct (one_snapshot tid k s pre post Htr) as (_ & tg & L & Hn & Hpre & _ & (rest & Hr) & _).
+    assert (E : deliveries (tid, k) (trace st) = deliveries (tid, k) post).
+    { unfold deliveries. rewrite Htr, proj_app, Hpre. cbn [app].
+      change (ELoad (tid, k) s :: post) with ([ELoad (tid, k) s] ++ post).
+      rewrite proj_app, (proj_one_same tid k) by reflexivity. reflexivity. }
+    rewrite E in Hin.
+    assert (Hd : In d (route s tg L)) by (rewrite Hr; apply in_or_app; left; exact Hin).
+    split; [|exists tg, L; auto].
+    unfold route in Hd. apply in_map_iff in Hd. destruct Hd as (i & <- & _). reflexivity.
+  Qed.
+
   (* A load after a store (no store in between) sees exactly that store. *)
   Lemma after_store pre s mid r s' post :
     trace st = pre ++ EStore s :: mid ++ ELoad r s' :: post ->
